@@ -466,9 +466,169 @@ fn shift_huge_case(g: &mut Gen, blks: &[Blk], z: &[f64], primal: bool, tag: &str
     g.count(&format!("shift/{}", tag));
 }
 
+
+// ------------------------------------------------------------------ scale sweeps
+const SCALE_EXPS: [i32; 10] = [10, -10, 20, -20, 27, -27, 30, -30, 40, -40];
+fn sc(v: &[f64], k: i32) -> Vec<f64> { let f = 2f64.powi(k); v.iter().map(|x| x * f).collect() }
+fn scm(m: &Mat, k: i32) -> Mat { m.iter().map(|r| sc(r, k)).collect() }
+
+fn run_cone_step(spec: &SupportedConeT<f64>, z: &[f64], s: &[f64], dz: &[f64], ds: &[f64], amax: f64, st: &CoreSettings<f64>, scale_first: bool) -> Option<(f64, f64)> {
+    guarded(|| {
+        let mut c = vh::make_cone(spec);
+        if scale_first { if !c.update_scaling(s, z, 1.0, vh::ScalingStrategy::PrimalDual) { return (f64::NAN, f64::NAN); } }
+        c.step_length(dz, ds, z, s, st, amax)
+    })
+}
+
+/// symmetric cones: identical step for (2^k x, 2^k dx), and the exact step property on the scaled data
+fn sweep_sym(g: &mut Gen, kind: &str, z: &[f64], s: &[f64], dz: &[f64], ds: &[f64], amax: f64) {
+    let n = z.len();
+    let spec = if kind == "nn" { SupportedConeT::NonnegativeConeT(n) } else { SupportedConeT::SecondOrderConeT(n) };
+    let st = settings(0.8, 1e-4, 0.99);
+    let Some((bz, bs)) = run_cone_step(&spec, z, s, dz, ds, amax, &st, false) else { return; };
+    for &k in SCALE_EXPS.iter() {
+        let (z2, s2, dz2, ds2) = (sc(z, k), sc(s, k), sc(dz, k), sc(ds, k));
+        let input = json!({"kind": kind, "k": k, "z": z, "s": s, "dz": dz, "ds": ds, "amax": amax});
+        let Some((az, as_)) = run_cone_step(&spec, &z2, &s2, &dz2, &ds2, amax, &st, false) else { g.sink.case("scale_sweep", input, "1%N".into(), &[kind, "panic"]); continue; };
+        if !(az.is_finite() && as_.is_finite()) { g.sink.case("scale_sweep", input, "1%N".into(), &[kind, "nonfinite"]); continue; }
+        let p = if kind == "nn" { "p_nn_step" } else { "p_soc_step" };
+        let coq = format!("(maxl [c_bitsame {} {}; {p} ({t}) {} {} {am} {}; {p} ({t}) {} {} {am} {}])", cfllist(&[az, as_]), cfllist(&[bz, bs]),
+            cdylist(&z2), cdylist(&dz2), cdy(az), cdylist(&s2), cdylist(&ds2), cdy(as_), p = p, t = TOLP, am = cdy(amax));
+        g.sink.case("scale_sweep", input, coq, &[kind]);
+        g.count(&format!("scale_sweep/{}", kind));
+    }
+}
+
+fn sweep_psd(g: &mut Gen, S: &Mat, Z: &Mat, dS: &Mat, dZ: &Mat, amax: f64) {
+    let n = S.len();
+    let spec = SupportedConeT::PSDTriangleConeT(n);
+    let st = settings(0.8, 1e-4, 0.99);
+    let Some((bz, bs)) = run_cone_step(&spec, &svec(Z), &svec(S), &svec(dZ), &svec(dS), amax, &st, true) else { return; };
+    for &k in SCALE_EXPS.iter() {
+        let (S2, Z2, dS2, dZ2) = (scm(S, k), scm(Z, k), scm(dS, k), scm(dZ, k));
+        let input = json!({"kind": "psd", "k": k, "S": S, "Z": Z, "dS": dS, "dZ": dZ, "amax": amax});
+        let Some((az, as_)) = run_cone_step(&spec, &svec(&Z2), &svec(&S2), &svec(&dZ2), &svec(&dS2), amax, &st, true) else { g.sink.case("scale_sweep", input, "1%N".into(), &["psd", "panic"]); continue; };
+        if !(az.is_finite() && as_.is_finite()) { g.sink.case("scale_sweep", input, "1%N".into(), &["psd", "nonfinite"]); continue; }
+        let coq = format!("(maxl [p_rel_equal (-26) {} {}; p_rel_equal (-26) {} {}; p_psd_step (-26) {n} {} {} {am} {}; p_psd_step (-26) {n} {} {} {am} {}])",
+            cdy(az), cdy(bz), cdy(as_), cdy(bs), cdymat(&Z2), cdymat(&dZ2), cdy(az), cdymat(&S2), cdymat(&dS2), cdy(as_), n = n, am = cdy(amax));
+        g.sink.case("scale_sweep", input, coq, &["psd"]);
+        g.count("scale_sweep/psd");
+    }
+}
+
+/// interior start of a nonsymmetric cone: the unit point moved by a feasible perturbation at scale 1
+fn nonsym_start(g: &mut Gen, which: usize) -> (SupportedConeT<f64>, Vec<f64>, Vec<f64>) {
+    let rng = &mut g.rng;
+    let (n, spec): (usize, SupportedConeT<f64>) = match which {
+        0 => (3, SupportedConeT::ExponentialConeT()),
+        1 => (3, SupportedConeT::PowerConeT(0.25 + 0.5 * rng.unit())),
+        _ => {
+            let d1 = 2 + rng.below(2);
+            let d2 = 1 + rng.below(2);
+            let mut kk = vec![1usize; d1];
+            for _ in 0..(16 - d1) { let i = rng.below(d1); kk[i] += 1; }
+            (d1 + d2, SupportedConeT::GenPowerConeT(kk.iter().map(|v| *v as f64 / 16.0).collect(), d2))
+        }
+    };
+    let c = vh::make_cone(&spec);
+    let (mut z, mut s) = (vec![0.0; n], vec![0.0; n]);
+    c.unit_initialization(&mut z, &mut s);
+    (spec, z, s)
+}
+
+/// nonsymmetric cones: the step of the scaled data equals the unscaled one up to one backtracking
+/// factor; zero and inward directions return alpha_max at every scale
+fn sweep_nonsym(g: &mut Gen, which: usize, amax: f64, step: f64) {
+    let (spec, z, s) = nonsym_start(g, which);
+    let n = z.len();
+    let st = settings(step, 1e-4, 0.99);
+    let tag = ["exp", "pow", "genpow"][which];
+    let mag = *g.rng.pick(&[0.3, 1.0, 3.0, 30.0]);
+    let dz: Vec<f64> = (0..n).map(|_| mag * (g.rng.unit() - 0.5) * 2.0).collect();
+    let ds: Vec<f64> = (0..n).map(|_| mag * (g.rng.unit() - 0.5) * 2.0).collect();
+    let zero = vec![0.0; n];
+    let Some((bz, bs)) = run_cone_step(&spec, &z, &s, &dz, &ds, amax, &st, false) else { return; };
+    for &k in SCALE_EXPS.iter() {
+        let (z2, s2, dz2, ds2) = (sc(&z, k), sc(&s, k), sc(&dz, k), sc(&ds, k));
+        let input = json!({"kind": tag, "k": k, "z": z, "s": s, "dz": dz, "ds": ds, "amax": amax, "step": step});
+        let r1 = run_cone_step(&spec, &z2, &s2, &dz2, &ds2, amax, &st, false);
+        let r2 = run_cone_step(&spec, &z2, &s2, &zero, &zero, amax, &st, false);   // zero direction
+        let r3 = run_cone_step(&spec, &z2, &s2, &z2, &s2, amax, &st, false);       // inward: x + a x = (1 + a) x
+        let (Some((az, as_)), Some((zz, zs)), Some((iz, is_))) = (r1, r2, r3) else { g.sink.case("scale_sweep", input, "1%N".into(), &[tag, "panic"]); continue; };
+        if ![az, as_, zz, zs, iz, is_].iter().all(|v| v.is_finite()) { g.sink.case("scale_sweep", input, "1%N".into(), &[tag, "nonfinite"]); continue; }
+        let coq = format!("(maxl [p_grid_equal {st} {} {}; p_grid_equal {st} {} {}; c_bitsame {} {}; c_bitsame {} {}])",
+            cdy(bz), cdy(az), cdy(bs), cdy(as_), cfllist(&[zz, zs]), cfllist(&[amax, amax]), cfllist(&[iz, is_]), cfllist(&[amax, amax]), st = cdy(step));
+        g.sink.case("scale_sweep", input, coq, &[tag]);
+        g.count(&format!("scale_sweep/{}", tag));
+    }
+}
+
+/// tiny / huge scale interior points of the symmetric cones with zero and inward directions: alpha_max
+fn sweep_sym_inward(g: &mut Gen) {
+    let st = settings(0.8, 1e-4, 0.99);
+    for &k in SCALE_EXPS.iter() {
+        let amax = *g.rng.pick(&ALPHAS);
+        let n = 2 + g.rng.below(5);
+        let znn: Vec<f64> = (0..n).map(|_| 0.5 + g.rng.unit()).collect();
+        let zsoc = soc_interior(&mut g.rng, n, 1.0, 1.0);
+        for (kind, x) in [("nn", sc(&znn, k)), ("soc", sc(&zsoc, k))] {
+            let spec = if kind == "nn" { SupportedConeT::NonnegativeConeT(n) } else { SupportedConeT::SecondOrderConeT(n) };
+            let zero = vec![0.0; n];
+            let input = json!({"kind": kind, "k": k, "x": x, "amax": amax, "inward": true});
+            let (Some((a1, a2)), Some((b1, b2))) = (run_cone_step(&spec, &x, &x, &zero, &zero, amax, &st, false), run_cone_step(&spec, &x, &x, &x, &x, amax, &st, false)) else { g.sink.case("scale_sweep", input, "1%N".into(), &[kind, "panic"]); continue; };
+            let coq = format!("(maxl [c_bitsame {} {}])", cfllist(&[a1, a2, b1, b2]), cfllist(&[amax; 4]));
+            g.sink.case("scale_sweep", input, coq, &[kind, "inward"]);
+            g.count("scale_sweep/inward");
+        }
+    }
+}
+
+fn scale_sweeps(g: &mut Gen, thorough: bool) {
+    let reps = if thorough { 4 } else { 1 };
+    for _ in 0..reps {
+        for (i, &n) in [1usize, 3, 7, 12].iter().enumerate() {
+            let amax = ALPHAS[i % 4];
+            let z: Vec<f64> = (0..n).map(|_| 0.5 + g.rng.unit()).collect();
+            let s: Vec<f64> = (0..n).map(|_| 0.5 + 4.0 * g.rng.unit()).collect();
+            let dz: Vec<f64> = z.iter().map(|v| v * (g.rng.unit() - 0.6) * 6.0).collect();
+            let ds: Vec<f64> = s.iter().map(|v| v * (g.rng.unit() - 0.6) * 6.0).collect();
+            sweep_sym(g, "nn", &z, &s, &dz, &ds, amax);
+        }
+        for (i, &n) in [2usize, 3, 4, 5, 8, 12].iter().enumerate() {
+            let amax = ALPHAS[i % 4];
+            let dist = [1.0, 1e-4][i % 2];
+            let z = soc_interior(&mut g.rng, n, dist, 1.0);
+            let s = soc_interior(&mut g.rng, n, dist, 3.0);
+            let dz = soc_direction(&mut g.rng, &z, [1, 5, 2, 3, 1, 5][i]);
+            let ds = soc_direction(&mut g.rng, &s, [5, 1, 0, 5, 2, 1][i]);
+            sweep_sym(g, "soc", &z, &s, &dz, &ds, amax);
+        }
+        // exact integer data incl. the a == 0 class
+        sweep_sym(g, "soc", &[5., 0., 0.], &[3., 1., 1.], &[-5., 3., 4.], &[-2., 1., 0.], 1.0);
+        sweep_sym(g, "soc", &[3., 0.], &[2., 0.], &[-2., 1.], &[0., 1.], 0.99);
+        if blas_shim::AVAILABLE {
+            for (i, &n) in [1usize, 2, 4].iter().enumerate() {
+                let S = psd_matrix(&mut g.rng, n, 0.3, 1.0);
+                let Z = psd_matrix(&mut g.rng, n, 0.3, 2.0);
+                let dS = if i == 1 { mat_scale(&psd_matrix(&mut g.rng, n, 0.1, 1.0), -3.0) } else { sym_matrix(&mut g.rng, n, 3.0) };
+                let dZ = sym_matrix(&mut g.rng, n, 3.0);
+                sweep_psd(g, &S, &Z, &dS, &dZ, ALPHAS[i % 4]);
+            }
+        }
+        for which in 0..3usize {
+            for &step in &[0.5, 0.8] {
+                let amax = *g.rng.pick(&ALPHAS);
+                sweep_nonsym(g, which, amax, step);
+            }
+        }
+        sweep_sym_inward(g);
+    }
+}
+
 // ------------------------------------------------------------------ generation
 fn generate(g: &mut Gen, thorough: bool) {
     let reps = if thorough { 6 } else { 1 };
+    scale_sweeps(g, thorough);
     // --- NN
     for _ in 0..reps {
         for n in 1..=12usize {
